@@ -89,6 +89,28 @@ fn normalized(frame: &[u8]) -> (u64, bool) {
     }
 }
 
+/// Hash builds: does the four-byte trailer equal the checksum this build's decoder computes over the
+/// decoded frame ("ok" / "WRONG")? No-hash builds: "na" (no trailer is written, none is computed).
+#[cfg(feature = "hash")]
+fn trailer(frame: &[u8]) -> &'static str {
+    let mut dec = FrameDecoder::new();
+    let mut src = frame;
+    if dec.reset(&mut src).is_err() || dec.decode_blocks(&mut src, BlockDecodingStrategy::All).is_err() {
+        return "undecodable";
+    }
+    // (the decoder hashes what it hands out)
+    let _ = dec.collect();
+    match (dec.get_checksum_from_data(), dec.get_calculated_checksum()) {
+        (Some(a), Some(b)) if a == b => "ok",
+        (None, _) => "absent",
+        _ => "WRONG",
+    }
+}
+#[cfg(not(feature = "hash"))]
+fn trailer(_frame: &[u8]) -> &'static str {
+    "na"
+}
+
 fn report(item: &str, op: &str, r: std::thread::Result<Result<String, String>>) {
     match r {
         Ok(Ok(s)) => println!("{item} {op} ok {s}"),
@@ -107,7 +129,7 @@ fn compress_ops(item: &str, data: &[u8], pattern: &[usize]) {
             c.compress();
             let out = c.take_drain().unwrap();
             let (n, ck) = normalized(&out);
-            Ok(format!("raw={:016x} norm={:016x} checksum={} len={}", fnv(&out), n, ck, out.len()))
+            Ok(format!("raw={:016x} norm={:016x} checksum={} len={} trailer={}", fnv(&out), n, ck, out.len(), trailer(&out)))
         })));
         // (b) Read::take with the limit inside the data
         let limit = (data.len() as u64 * 2 / 3).max(1);
@@ -118,7 +140,7 @@ fn compress_ops(item: &str, data: &[u8], pattern: &[usize]) {
             c.compress();
             let out = c.take_drain().unwrap();
             let (n, ck) = normalized(&out);
-            Ok(format!("raw={:016x} norm={:016x} checksum={} len={}", fnv(&out), n, ck, out.len()))
+            Ok(format!("raw={:016x} norm={:016x} checksum={} len={} trailer={}", fnv(&out), n, ck, out.len(), trailer(&out)))
         })));
         // (a') a REUSED compressor: a first frame (text-like warm-up with a Huffman table, or the item
         // itself) and then the item; the second frame is reported. Per-frame state must be reset the
@@ -135,7 +157,7 @@ fn compress_ops(item: &str, data: &[u8], pattern: &[usize]) {
                 c.compress();
                 let out = c.take_drain().unwrap();
                 let (n, ck) = normalized(&out);
-                Ok(format!("raw={:016x} norm={:016x} checksum={} len={} first_len={}", fnv(&out), n, ck, out.len(), first.len() - if ck { 4 } else { 0 }))
+                Ok(format!("raw={:016x} norm={:016x} checksum={} len={} first_len={} trailer={}", fnv(&out), n, ck, out.len(), first.len() - if ck { 4 } else { 0 }, trailer(&out)))
             })));
         }
         // (c) &mut [u8] sink that is large enough, and one that fills up (write_all must fail -> the
